@@ -14,9 +14,10 @@ confirm)
   [ -n "$place" ] || { echo "demo_test.go lacks a '// place at:' line"; exit 2; }
   cp "$dir/demo_test.go" "$wt/$place"
   pkg="./$(dirname "$place")"
-  (cd "$wt" && go test -vet=off -count=1 "$pkg" >/tmp/sd-clean.$$ 2>&1) && clean=pass || clean=FAIL
+  race=""; sed -n 2p "$dir/demo_test.go" | grep -q "run with: -race" && race="-race"
+  (cd "$wt" && go test $race -vet=off -count=1 "$pkg" >/tmp/sd-clean.$$ 2>&1) && clean=pass || clean=FAIL
   (cd "$wt" && git apply "$dir/patch.diff") || { echo "patch does not apply"; exit 2; }
-  (cd "$wt" && go test -vet=off -count=1 "$pkg" >/tmp/sd-mut.$$ 2>&1) && mut=pass || mut=FAIL
+  (cd "$wt" && go test $race -vet=off -count=1 "$pkg" >/tmp/sd-mut.$$ 2>&1) && mut=pass || mut=FAIL
   rm "$wt/$place"
   (cd "$wt" && go build ./... >/dev/null 2>&1 && go test -vet=off -count=1 ./... >/tmp/sd-suite.$$ 2>&1) && suite=pass || suite=FAIL
   echo "demo on clean tree: $clean (want pass); demo with change: $mut (want FAIL); existing suite with change: $suite (want pass)"
